@@ -38,6 +38,19 @@ PROGS = {
     "P1": ("p1.c", '#pragma alpha one\nint a;\nvoid f(void){\n#pragma alpha two\n a; }'),
     "P2": ("p2.c", 'int b;\n  #pragma beta one\nvoid g(void){ b;\n#pragma beta two\n}'),
     "P3": ("p3.c", '#pragma\n#pragma gamma three\nint c;'),
+    # pairs aligned token for token (same token indices, lines and columns):
+    # T is a typedef in U*, an object in V*, so every speculative or
+    # position-keyed decision is taken at the same position with the opposite
+    # outcome: cast vs parenthesised operand, sizeof(type) vs sizeof(expr);
+    # declaration vs expression statement, label vs expression statement,
+    # compound literal vs call; abstract declarator vs parenthesised parameter
+    # name, prototype vs identifier list
+    "U1": ("u1.c", 'typedef int T; int x = (T) + 1, s = sizeof (T);'),
+    "V1": ("v1.c", 'static  int T; int x = (T) + 1, s = sizeof (T);'),
+    "U2": ("u2.c", 'typedef int T; void f(int x){ T * x; x : x ; x = (T){ 1 } ; }'),
+    "V2": ("v2.c", 'static  int T; void f(int x){ T * x; x = x ; x = (T)( 1 ) ; }'),
+    "U3": ("u3.c", 'typedef int T; void g(int (T)); int h(T);'),
+    "V3": ("v3.c", 'static  int T; void g(int (T)); int h(T);'),
     # shallow | deep: X is short; Y nests DEEP_K parentheses, about 8 Python
     # frames each (measured: the deepest nesting that parses is 372 at a
     # recursion limit of 3000 and 1247 at 10000), i.e. clearly more frames
@@ -269,6 +282,10 @@ def plan(tier):
         (_ref("2 parsers P1|C (only one has pragmas) @token", "parse:P1:token", "parse:C:token"), bt),
         (_ref("parser P1 | construction of another CParser @token", "parse:P1:token", "ctor::token"), bt),
         (_ref("2 parsers P1|P2, construction and parse() separated @token", "parse:P1:split", "parse:P2:split"), bt),
+        # position-keyed state: token-aligned programs with opposite outcomes
+        (_ref("2 parsers U1|V1 (aligned: cast / sizeof(type) vs expression) @token", "parse:U1:token", "parse:V1:token"), bt),
+        (_ref("2 parsers U2|V2 (aligned: declaration, label, compound literal vs expressions) @token", "parse:U2:token", "parse:V2:token"), bt),
+        (_ref("2 parsers U3|V3 (aligned: abstract declarator / prototype vs parameter name / identifier list) @token", "parse:U3:token", "parse:V3:token"), bt),
         # process-wide interpreter state: shallow | deep
         (_ref("2 parsers X(shallow)|Y(640 nested parentheses) @token (Y: first 6 pulls, then every 64th)", "parse:X:token", "parse:Y:sparse"), bt),
         (_ref("3 parsers E|F|G (same directives, G names a file) @token", "parse:E:token", "parse:F:token", "parse:G:token"), bt),
